@@ -1,7 +1,7 @@
 // Phonetic Method
 use ahash::RandomState;
 use std::collections::HashMap;
-use std::fs::{write, File};
+use std::fs::write;
 use std::time::SystemTime;
 
 use crate::config::Config;
@@ -10,7 +10,7 @@ use crate::data::Data;
 use crate::keycodes::keycode_to_char;
 use crate::phonetic::suggestion::PhoneticSuggestion;
 use crate::suggestion::Suggestion;
-use crate::utility::{read, SplittedString};
+use crate::utility::SplittedString;
 
 pub(crate) struct PhoneticMethod {
     buffer: String,
@@ -23,30 +23,41 @@ pub(crate) struct PhoneticMethod {
     prev_selection: usize,
 }
 
+/// Loads the user's auto correct file if it was modified after `since`.
+///
+/// Returns `None` if the file is absent, not modified or unreadable.
+fn load_user_autocorrect(
+    config: &Config,
+    since: SystemTime,
+) -> Option<(SystemTime, HashMap<String, String, RandomState>)> {
+    let path = config.get_user_phonetic_autocorrect();
+    let modified = std::fs::metadata(&path).ok()?.modified().ok()?;
+
+    if modified > since {
+        let autocorrect = serde_json::from_slice(&std::fs::read(&path).ok()?).ok()?;
+        Some((modified, autocorrect))
+    } else {
+        None
+    }
+}
+
 impl PhoneticMethod {
     /// Creates a new `PhoneticMethod` struct.
     pub(crate) fn new(config: &Config) -> Self {
-        // Load candidate selections file.
-        let selections = if let Ok(file) = std::fs::read(config.get_user_phonetic_selection_data())
-        {
-            serde_json::from_slice(&file).unwrap()
-        } else {
-            HashMap::with_hasher(RandomState::new())
-        };
+        // Load candidate selections file. An absent or unreadable file means no selections.
+        let selections = std::fs::read(config.get_user_phonetic_selection_data())
+            .ok()
+            .and_then(|file| serde_json::from_slice(&file).ok())
+            .unwrap_or_else(|| HashMap::with_hasher(RandomState::new()));
 
-        // Load user's auto correct file.
-        let (modified, autocorrect) = {
-            if let Ok(mut file) = File::open(config.get_user_phonetic_autocorrect()) {
-                let modified = file.metadata().unwrap().modified().unwrap();
-                let autocorrect = serde_json::from_slice(&read(&mut file)).unwrap();
-                (modified, autocorrect)
-            } else {
+        // Load user's auto correct file. An absent or unreadable file means no entries.
+        let (modified, autocorrect) = load_user_autocorrect(config, SystemTime::UNIX_EPOCH)
+            .unwrap_or_else(|| {
                 (
                     SystemTime::UNIX_EPOCH,
                     HashMap::with_hasher(RandomState::new()),
                 )
-            }
-        };
+            });
 
         PhoneticMethod {
             buffer: String::with_capacity(20),
@@ -133,11 +144,11 @@ impl Method for PhoneticMethod {
                     .to_string(),
                 suggestion,
             );
-            write(
-                config.get_user_phonetic_selection_data(),
-                serde_json::to_string(&self.selections).unwrap(),
-            )
-            .unwrap();
+            // A failed save loses this selection on the next start only, so don't
+            // take the host application down for it.
+            if let Ok(selections) = serde_json::to_string(&self.selections) {
+                let _ = write(config.get_user_phonetic_selection_data(), selections);
+            }
         }
 
         // Reset to defaults
@@ -145,14 +156,10 @@ impl Method for PhoneticMethod {
     }
 
     fn update_engine(&mut self, config: &Config) {
-        if let Ok(mut file) = File::open(config.get_user_phonetic_autocorrect()) {
-            let modified = file.metadata().unwrap().modified().unwrap();
-            // Update the auto correct entries if only the file was modified in the meantime.
-            if modified > self.modified {
-                self.suggestion.user_autocorrect =
-                    serde_json::from_slice(&read(&mut file)).unwrap();
-                self.modified = modified;
-            }
+        // Update the auto correct entries if only the file was modified in the meantime.
+        if let Some((modified, autocorrect)) = load_user_autocorrect(config, self.modified) {
+            self.suggestion.user_autocorrect = autocorrect;
+            self.modified = modified;
         }
     }
 
